@@ -7,6 +7,7 @@ import (
 	"math/big"
 	"os"
 	"strconv"
+	"strings"
 
 	vmcommon "github.com/ElrondNetwork/elrond-vm-common"
 	"verif/harness/world"
@@ -34,6 +35,10 @@ type CStep struct {
 	Val       string   `json:"val"`
 	Sched     map[string]map[string]uint64 `json:"sched"`
 	Epoch     uint32   `json:"epoch"`
+	Modes     string   `json:"modes"`
+	Of        string   `json:"of"`
+	FKind     string   `json:"fkind"`
+	FK        int      `json:"fk"`
 }
 
 func unhex(s string) []byte {
@@ -90,7 +95,11 @@ func Replay(in string, t *world.Tracer) error {
 
 // ApplyStep performs one recorded step.
 func (d *Ledger) ApplyStep(s *CStep) {
+	// the observation modes the step was recorded under (replicas, allocation monitor); fault probes are replayed one by one
+	d.Triple, d.Alloc = strings.Contains(s.Modes, "triple"), strings.Contains(s.Modes, "alloc")
 	switch s.Kind {
+	case "fault":
+		d.oneFault(s)
 	case "exec":
 		d.record("exec", s.Shard, s.ToCall())
 	case "deliver":
